@@ -204,6 +204,13 @@ def _srf(case, tags, **override):
     elif reuse == "len_scale":
         start["len_scale"] = spec["len_scale"] * 3.0
     model = lib(build_model, start, _what="model construction", _tags=tags)
+    if reuse == "set_generator":
+        # an SRF that already carries a vector-field generator is given its settings anew through the documented set_generator call
+        srf = gs.SRF(model, generator="VectorField", seed=(case["seed"] + 1) % 2**31, mode_no=2 * case["mode_no"], mean_velocity=3.0 * mean_u + 1.0)
+        with common.quiet():
+            srf(np.zeros((spec["dim"], 1)))
+            srf.set_generator("VectorField", seed=case["seed"], mode_no=case["mode_no"], mean_velocity=mean_u, sampling=case.get("sampling", "auto"))
+        return srf
     if reuse:
         # an existing vector-field SRF whose model (or mode number) is changed in place afterwards (no new seed): the next field
         # must be the one of the current settings
@@ -278,6 +285,8 @@ def gen_kernel(draw, tier="quick"):
         "nugget": draw(st.one_of(st.just(0.0), st.just(0.0), logfloat(1e-3, 10.0))),
         "nugget2": draw(logfloat(1e-3, 10.0)),
     }
+    if draw(st.integers(0, 3)) == 0:
+        case["reuse"] = "set_generator"
     return case
 
 
@@ -390,7 +399,7 @@ def gen_fd(draw, tier="quick"):
         # evaluation far from the origin (projected map coordinates): a stencil step is then tiny relative to the coordinates
         "pos_offset": draw(st.sampled_from([0.0, 0.0, 1e2, -3e2, 1e3])),
     }
-    r = draw(st.sampled_from([None, None, None, "dim", "len_scale", "mode_no"]))
+    r = draw(st.sampled_from([None, None, None, "dim", "len_scale", "mode_no", "set_generator"]))
     if r == "dim" and (spec["cls"] in ("JBessel", "SuperSpherical", "TPLSimple") or gens.max_valid_dim(spec["cls"]) < 3):
         r = "len_scale"  # dimension-dependent argument bounds are C14's known finding K6
     if r:
